@@ -145,6 +145,11 @@ def explore(repo, run, tag="r", config=None, limit=4000):
             paths.append(Path(ex, "exc", r.exc))
         except Unsupported as u:
             paths.append(Path(ex, "unsupported", str(u)))
+        except (z3.Z3Exception, RecursionError, AttributeError, TypeError, KeyError, IndexError, ValueError, AssertionError) as err:
+            # an internal error of the executor on code it was not written for: the function is out of reach (UNDECIDED), never a verdict
+            if __import__("os").environ.get("PYVC_DEBUG"):
+                raise
+            paths.append(Path(ex, "unsupported", f"executor error {type(err).__name__}: {str(err)[:120]}"))
         prefix = orc.next_prefix()
         count += 1
         if count > limit:
